@@ -92,7 +92,7 @@ def tasks(tier, seed):
             out.append({"fn": "build", "kwargs": {"det": det, "mode": mode}, "label": f"build/{det},{mode}"})
     out.append({"fn": "presence", "kwargs": {}, "label": "build/presence"})
     for kind in EXPR_KINDS:
-        out.append({"fn": "expressions", "kwargs": {"kind": kind}, "label": f"expressions/{kind}"})
+        out.append({"fn": "expressions", "kwargs": {"kind": kind, "deep": tier == "thorough"}, "label": f"expressions/{kind}", "caps": {"max_paths": 400}})
     return out
 
 
@@ -138,11 +138,14 @@ def _expression_case(kind, e, n):
     return bad
 
 
-def expressions(kind):
+def expressions(kind, deep=False):
     """Value-range and readout-time expressions (numpy.* text as written in configuration files) evaluate to exactly the numbers they
     denote, for magnitudes from 1e-15 to 1e3 (solver-chosen decade and length; the evaluation itself is numpy's, i.e. concrete)."""
     e, n = vx.integer("decade"), vx.integer("length")
-    vx.assume((e >= -15) & (e <= 3) & (n >= 1) & (n <= 3), "decades 1e-15 .. 1e3, three lengths")
+    if deep:
+        vx.assume((e >= -18) & (e <= 6) & (n >= 1) & (n <= 6), "decades 1e-18 .. 1e6, six lengths")
+    else:
+        vx.assume((e >= -15) & (e <= 3) & (n >= 1) & (n <= 3), "decades 1e-15 .. 1e3, three lengths")
     ee, nn = vx.concretize_int(e), vx.concretize_int(n)
     bad = _expression_case(kind, ee, nn)
     vx.prove(f"C12/expressions/denoted_numbers/{kind}/1e{ee},n={nn}", not bad, detail=str(bad)[:300])
